@@ -7,4 +7,5 @@
                        definitions equals the tree-walking interpreter (fragment `progOK`).
 -/
 import DuckModel.Props.C05Core
+import DuckModel.Props.C05End
 import DuckModel.Props.C05Sim
